@@ -2171,8 +2171,19 @@ def lex_tokens(line):
         tokens = ['string', value]
         return LineTokens(line, tokens)
 
+    # character literals may hold lexically significant characters ('#', ',', '(', ')', ' '):
+    # replace each by its integer value before comments and separators are dealt with
+    def char_value(match):
+        try:
+            c = match.group(1).encode('latin-1', 'backslashreplace').decode('unicode_escape')
+            return str(ord(c))
+        except (UnicodeError, TypeError):
+            return match.group(0)
+
+    contents = re.sub(r"'(\\.|[^\\'])'", char_value, line.contents)
+
     # strip comments
-    contents = re.sub(r'#.*$', r'', line.contents)
+    contents = re.sub(r'#.*$', r'', contents)
 
     # pad parens before split
     contents = contents.replace('(', ' ( ').replace(')', ' ) ')
